@@ -1730,6 +1730,58 @@ def conic_branch(ctx):
         want = ONE - (ONE + A('self.k')) * z / A('self.radius')
         if rat_eq(lhs, want) and (sel_line is None or st.lineno < sel_line):
             found[nm] = st
+    # the z used for the branch test and for the selection is the z of the
+    # ray at that root: z_i = rays.z + t_i rays.N (last definition before the
+    # selection), and the selection takes the root with the smaller |z|
+    zdefs = {'z1': [], 'z2': []}
+    for st in ast.walk(f.node):
+        if isinstance(st, ast.Assign) and isinstance(
+                st.targets[0], ast.Name) and st.targets[0].id in zdefs:
+            zdefs[st.targets[0].id].append(st.value)
+    okz = all(zdefs.values())
+    for i_ in '12':
+        for v_ in zdefs['z' + i_]:      # every definition (branch test, pick)
+            try:
+                got = Ev(sym=sym, env={'t' + i_: A('T' + i_)}).ev(v_)
+            except Inconclusive:
+                got = None
+            if got is None or not rat_eq(got, A('rays.z') + A('T' + i_) *
+                                         A('rays.N')):
+                okz = False
+    sel = [st for st in ast.walk(f.node) if isinstance(st, ast.Assign) and
+           isinstance(st.targets[0], ast.Name) and st.targets[0].id == 't' and
+           isinstance(st.value, ast.Call) and
+           unparse(st.value.func) == 'np.where']
+    oks = bool(sel) and unparse(sel[0].value).replace(' ', '') in (
+        'np.where(np.abs(z1)<=np.abs(z2),t1,t2)',
+        'np.where(np.abs(z1)<np.abs(z2),t1,t2)',
+        'np.where(np.abs(z2)<np.abs(z1),t2,t1)',
+        'np.where(np.abs(z2)<=np.abs(z1),t2,t1)')
+    if okz and oks:
+        res.ok('z_i = z + t_i N; the root nearer the vertex plane is taken')
+    else:
+        res.fail(ctx.finding(
+            'CONIC-BRANCH', f, f.node,
+            'the z of the ray at the two roots is not rays.z + t_i rays.N, '
+            'or the selection does not take the root with the smaller |z|: '
+            'the wrong intersection of the conic is recorded',
+            construct='root selection by |z|'))
+    # a = 0 (paraboloid, ray parallel to the axis): the quadratic degenerates
+    # to b t + c = 0 and both roots above are nan; the linear solution has to
+    # be written for those rays
+    lin_arm = [st for st in ast.walk(f.node) if isinstance(st, ast.Assign) and
+               isinstance(st.targets[0], ast.Subscript) and
+               unparse(st.targets[0].value) == 't' and
+               'a==0' in unparse(st.targets[0].slice).replace(' ', '')]
+    if lin_arm:
+        res.ok('a == 0: linear solution written (its value is checked by '
+               'ON-SURFACE)')
+    else:
+        res.fail(ctx.finding(
+            'CONIC-BRANCH', f, f.node,
+            'no branch for a = 0: a ray parallel to the axis of a paraboloid '
+            '(k = -1) makes the quadratic linear, (-b +- sqrt(d)) / (2a) is '
+            '0/0 and the ray is lost', construct='a == 0 arm missing'))
     if set(found) == {'t1', 't2'}:
         res.ok('t1, t2 with 1 - (1 + k) z / R < 0 are set to inf before the '
                'root nearest the vertex plane is taken')
